@@ -1,4 +1,5 @@
 pub mod acc;
+pub mod itercheck;
 pub mod json;
 pub mod panics;
 pub mod pool;
